@@ -5,17 +5,20 @@ from pyvc.vtypes import *  # noqa
 SRC = "probes.py"
 EXPECT = {}   # qualname -> list of 'T' / 'F' per ensures clause
 XNAMES = {}   # qualname -> substrings of obligations that must fail
+VACUOUS = set()   # functions whose exits must be reported unreachable
 
 
 def register(reg):
     def probe(q, params, returns, clauses, **kw):
         EXPECT[q] = [t for t, _ in clauses]
         XNAMES[q] = [c for t, c in clauses if t == 'X']
+        if any(t == 'V' for t, _ in clauses):
+            VACUOUS.add(q)
         if returns is None:
             kw.setdefault("modifies", [])
-            reg.contract(SRC, q, params=params, ensures=[c for t, c in clauses if t != 'X'], props=["SELF"], **kw)
+            reg.contract(SRC, q, params=params, ensures=[c for t, c in clauses if t not in ('X', 'V')], props=["SELF"], **kw)
             return
-        kw.setdefault("modifies", []); reg.contract(SRC, q, params=params, returns=returns, ensures=[c for t, c in clauses if t != 'X'], props=["SELF"], **kw)
+        kw.setdefault("modifies", []); reg.contract(SRC, q, params=params, returns=returns, ensures=[c for t, c in clauses if t not in ('X', 'V')], props=["SELF"], **kw)
 
     LL = List(List(INT))
     probe("row_sums", {"rows": LL}, List(INT), [
@@ -310,3 +313,6 @@ def register(reg):
         ("F", "len(xs) == old(len(xs))"),
         ("F", "result == -1"),
     ], modifies=["xs"])
+    # vacuity guard: an assumed callee with a contradictory postcondition makes every exit of its caller unreachable
+    reg.contract(SRC, "oracle", params={"x": INT}, returns=INT, assumed=True, ensures=["result > x", "result < x"], modifies=[], props=["SELF"])
+    probe("broken_dep", {"x": INT}, INT, [("V", "unsat"), ("F", "result == 5")])
